@@ -99,6 +99,30 @@ func (c17) Gen(seed uint64, run int, tier string) *core.Case {
 		}
 		p.Phases = append(p.Phases, phase)
 	}
+	if r.IntN(4) == 0 {
+		// directed family (the property's own quantifier): a lookup whose cache miss is in flight while
+		// the account is deleted or updated. The account is created, its write-through cache entry
+		// expires, then a probe races the admin call; probes afterwards show who won.
+		cfg.CacheTTL = []int{1, 120}[r.IntN(2)]
+		x := r.IntN(3)
+		s0 := r.IntN(3)
+		s1 := (s0 + 1 + r.IntN(2)) % 3
+		mk := func(kind string, sec int) c17Op {
+			return c17Op{Kind: kind, Acc: x, Secret: sec, UID: 1000 + r.IntN(5), GID: 2000 + r.IntN(5), Role: "user"}
+		}
+		admin := mk([]string{"delete", "update", "update"}[r.IntN(3)], s1)
+		admin.What = []string{"secret", "ids", "all"}[r.IntN(3)]
+		racers := [][]c17Op{{mk("probe", s0), mk("probe", []int{s0, s1}[r.IntN(2)])}, {admin}}
+		if r.IntN(2) == 0 {
+			racers = append(racers, []c17Op{mk("probe", s0)})
+		}
+		p = c17Prog{Phases: []c17Phase{
+			{Clients: [][]c17Op{{mk("create", s0)}}},
+			{AdvanceS: []int{2, 200}[r.IntN(2)], Clients: racers},
+			{Clients: [][]c17Op{{mk("probe", s0)}, {mk("probe", s1)}}},
+		}}
+		total = 8
+	}
 	c := &core.Case{Check: "C17", Property: "C17", Seed: seed, Cfg: cfg}
 	if r.IntN(2) == 0 {
 		c.Sched = core.Sched{Policy: sim.Rand, PreemptP: []float64{0.03, 0.1, 0.3}[r.IntN(3)]}
